@@ -59,7 +59,7 @@ class Measles(SIR):
 
     def set_prognoses(self, uids, source_uids=None):
         """ Set prognoses for those who get infected """
-        super().set_prognoses(uids, source_uids)
+        super(ss.SIR, self).set_prognoses(uids, source_uids) # Skip SIR.set_prognoses, which would also schedule SIR recovery/death from the time of exposure
         ti = self.ti
 
         self.susceptible[uids] = False
